@@ -10,7 +10,7 @@ NAME_POOL = ["words", "phones", "t 1", 'q"uote', 'dq""uote', "a=b", "7", "é𝄞
 LABEL_POOL = [
     "", "a", "hello world", "7", "3.14", "-0", "x = y", 'say "hi"', '""', '"', 'a""b', '"start', 'end"', '"both"', "line1\nline2", "a\n\nb",
     'q"\n"r', "é", "日本語", "𝄞 clef", "tab\tinside", "a!b", "! bang", "<exists>", "semi;colon", "back\\slash", "x" * 300, "a  b", "%d %s",
-    "1e-05", "xmin", "text", "mark", "number", "size = 3", "null\x00byte",
+    "1e-05", "xmin", "text", "mark", "number", "size = 3", "null\x00byte", "-", "--", "0", "None", "false", "[]", "_",
 ]
 KEYWORD_LABELS = ['item [2]:', 'intervals [1]:', 'points [1]:', '"IntervalTier"', '"TextTier"', 'class = "IntervalTier"', 'text = "x"',
                   'ooTextFile short', 'item[1]:', 'intervals: size = 2', 'before\nitem [3]:\nafter', 'name = "fake"', 'xmin = 5']
